@@ -64,12 +64,13 @@ public:
 	long cnt[6], total;
 	int  abort_class;
 	long abort_k, budget_msgs;
-	bool armed, fired, budget_hit;
-	SimIPhreeqc() : total(0), abort_class(-1), abort_k(0), budget_msgs(0), armed(false), fired(false), budget_hit(false)
+	bool armed, fired, budget_hit, pending;
+	int  nest;     // > 0 while inside the library's own warning_msg/error_msg (which print through output_msg/log_msg)
+	SimIPhreeqc() : total(0), abort_class(-1), abort_k(0), budget_msgs(0), armed(false), fired(false), budget_hit(false), pending(false), nest(0)
 	{
 		memset(cnt, 0, sizeof cnt);
 	}
-	void call_begin() { memset(cnt, 0, sizeof cnt); total = 0; fired = false; budget_hit = false; armed = true; }
+	void call_begin() { memset(cnt, 0, sizeof cnt); total = 0; fired = false; budget_hit = false; armed = true; pending = false; nest = 0; }
 	void call_end() { armed = false; abort_k = 0; abort_class = -1; budget_msgs = 0; }
 	void tick(int cls)
 	{
@@ -79,13 +80,18 @@ public:
 		if (fired || budget_hit) return;
 		if (abort_k > 0 && cls != M_ERR) {
 			long n = (abort_class == M_ANY) ? total : (abort_class == cls ? cnt[cls] : -1);
-			if (n == abort_k) {
+			// The engine never raises an error from inside the printing of a warning or error message (IPhreeqc::warning_msg
+			// and error_msg switch error_on off around the nested print); a stop planned for such a nested message is
+			// raised at the next message outside, which is a point where a genuine engine error can occur.
+			if (n == abort_k && nest > 0) pending = true;
+			else if (n == abort_k || (pending && nest == 0)) {
+				pending = false;
 				fired = true;
 				sim_event("abort %s k=%ld", g_class_names[abort_class], abort_k);
 				this->IPhreeqc::error_msg("ERROR: simulated stop (injected abort)\n", true);
 			}
 		}
-		if (budget_msgs > 0 && total > budget_msgs && cls != M_ERR) {
+		if (budget_msgs > 0 && total > budget_msgs && cls != M_ERR && nest == 0) {
 			budget_hit = true;
 			sim_event("budget_stop msgs=%ld", total);
 			this->IPhreeqc::error_msg("ERROR: simulated stop (budget exceeded)\n", true);
@@ -95,8 +101,9 @@ public:
 	virtual void log_msg(const char *s) { tick(M_LOG); IPhreeqc::log_msg(s); }
 	virtual void punch_msg(const char *s) { tick(M_PUNCH); IPhreeqc::punch_msg(s); }
 	virtual void screen_msg(const char *s) { tick(M_SCREEN); IPhreeqc::screen_msg(s); }
-	virtual void warning_msg(const char *s) { tick(M_WARN); IPhreeqc::warning_msg(s); }
-	virtual void error_msg(const char *s, bool stop = false) { if (armed) { cnt[M_ERR]++; } IPhreeqc::error_msg(s, stop); }
+	struct Nest { int &n; Nest(int &x) : n(x) { n++; } ~Nest() { n--; } };
+	virtual void warning_msg(const char *s) { tick(M_WARN); Nest g(nest); IPhreeqc::warning_msg(s); }
+	virtual void error_msg(const char *s, bool stop = false) { if (armed) { cnt[M_ERR]++; } Nest g(nest); IPhreeqc::error_msg(s, stop); }
 
 	Phreeqc *engine() { return this->PhreeqcPtr; }
 	std::string accumulated() { return this->GetAccumulatedLines(); }
@@ -653,6 +660,10 @@ static void run_op(int client, int opidx, const Op &op)
 			catch (const std::exception &e) { r.push_back(std::string("EXC:") + e.what()); }
 			catch (...) { r.push_back("EXC:unknown"); }
 		} else r.push_back("nosim");
+	} else if (name == "heap_pad") {   // shifts the heap layout of this process for the rest of its life (repeatability oracle)
+		volatile char *pad = (volatile char *)malloc((size_t)atol(a[1].c_str()));
+		if (pad) pad[0] = 1;
+		r.push_back("ok");
 	} else if (name == "yield") { sim_switch_point(SW_API); r.push_back("ok");
 	} else r.push_back("\x01" "BADOP");
 	sim_switch_point(SW_API);
